@@ -529,7 +529,12 @@ pub fn check_main(args: &[String]) -> i32 {
         match rep.verdict.as_str() {
             "Completed" => a.completed += 1,
             "Deadlock" => a.deadlock += 1,
-            "Budget" => a.budget += 1,
+            "Budget" => {
+                a.budget += 1;
+                if a.budget <= 5 {
+                    println!("note: run {} exhausted the step/time budget ({} steps)", rep.run, rep.steps);
+                }
+            }
             _ => {}
         }
         if let Some(e) = &rep.harness_error {
